@@ -19,6 +19,7 @@ var (
 	errInvalidValueAmbiguous        = reserr.InternalError(errors.New(`invalid value: ambiguous value type`))
 	errInvalidValueObjectNotAllowed = reserr.InternalError(errors.New(`invalid value: nested json object must be wrapped as a data value`))
 	errInvalidValueArrayNotAllowed  = reserr.InternalError(errors.New(`invalid value: nested json array must be wrapped as a data value`))
+	errMissingIdx                   = reserr.InternalError(errors.New("invalid event: missing idx"))
 )
 
 const (
@@ -646,7 +647,21 @@ func DecodeAddEvent(data json.RawMessage) (*AddEvent, error) {
 		return nil, errInvalidValue
 	}
 
+	// Assert the idx property is present
+	if !hasIdx(data) {
+		return nil, errMissingIdx
+	}
+
 	return &d, nil
+}
+
+// hasIdx reports whether the JSON encoded add or remove event has a non-null
+// idx property. A missing idx must not be mistaken for index 0.
+func hasIdx(data json.RawMessage) bool {
+	var p struct {
+		Idx *int `json:"idx"`
+	}
+	return json.Unmarshal(data, &p) == nil && p.Idx != nil
 }
 
 // EncodeRemoveEvent creates a JSON encoded RES-service collection remove event
@@ -661,6 +676,11 @@ func DecodeRemoveEvent(data json.RawMessage) (*RemoveEvent, error) {
 	err := json.Unmarshal(data, &d)
 	if err != nil {
 		return nil, err
+	}
+
+	// Assert the idx property is present
+	if !hasIdx(data) {
+		return nil, errMissingIdx
 	}
 
 	return &d, nil
